@@ -22,6 +22,7 @@ type pathChecker struct {
 	decl  map[string]*obs.ODecl
 	fails []string
 	seen  map[string]bool
+	leaf  map[string]string // generated scalar-like Go type -> the GraphQL leaf type it stands for
 }
 
 func (pc *pathChecker) failf(format string, a ...interface{}) {
@@ -194,6 +195,20 @@ func (pc *pathChecker) checkStruct(where string, st *obs.ODecl, concrete string,
 			continue
 		}
 		f0 := into[k][0]
+		if f0.Definition != nil && len(f0.SelectionSet) == 0 {
+			// a generated name for a LEAF type (typename option on a scalar or enum field) stands
+			// for one GraphQL type only
+			if d := pc.decl[stripWrappers(t)]; d != nil && (d.Kind == "alias" || d.Kind == "enum") {
+				g := f0.Definition.Type.Name()
+				if pc.leaf == nil {
+					pc.leaf = map[string]string{}
+				}
+				if prev, ok := pc.leaf[d.Name]; ok && prev != g {
+					pc.failf("%s.%s: Go type %s holds values of GraphQL type %s here and of %s elsewhere: two leaf types share one Go type", where, k, d.Name, g, prev)
+				}
+				pc.leaf[d.Name] = g
+			}
+		}
 		if f0.Definition == nil || len(f0.SelectionSet) == 0 {
 			continue
 		}
